@@ -184,7 +184,7 @@ def r_detect_output(ck: Checker) -> None:
 RULES = [
     Rule("C18.EXHAUST.predicates", P + ("C07",), r_predicates_cover),
     Rule("C18.headderivable", P + ("C08", "C20"), r_headderivable),
-    Rule("C18.body", P + ("C15",), r_body_cover),
+    Rule("C18.body", P + ("C15", "C20", "C08"), r_body_cover),
     Rule("C18.FLOW.detect-input", P, r_detect_input),
     Rule("C18.detect-output", P, r_detect_output),
 ]
